@@ -26,6 +26,7 @@ FILES = {
     "src/containers/qgrow.c": ["C09", "C15", "C12"],
     "src/containers/qvector.c": ["C10", "C15", "C14", "C13", "C12", "C11"],
     "src/internal/qinternal.h": ["C14", "C13", "C15", "C09"],
+    "src/extensions/qlog.c": ["C14"],
 }
 SKIP_FUNCS = re.compile(r"_debug\b|print_node|print_branch|_q_textout")
 
